@@ -1,8 +1,185 @@
 package main
 
+import (
+	"fmt"
+	"go/ast"
+	"strings"
+)
+
+// call-name table of the elasticquota facts (the Lean side refers to the numbers; keep in sync with Ties/C19.lean)
+var c19Calls = map[string]int{
+	"shouldBeIgnored":                   1,
+	"getQuotaInfoByNameNoLock":          2,
+	"IsPodExist":                        3,
+	"updatePodCacheNoLock":              4,
+	"updatePodRequestNoLock":            5,
+	"IsPodTerminated":                   6,
+	"CheckPodIsAssigned":                7,
+	"updatePodIsAssignedNoLock":         8,
+	"updatePodUsedNoLock":               9,
+	"getPodIsAssignedNoLock":            10,
+	"getPodAssociateQuotaNameAndTreeID": 11,
+	"GetGroupQuotaManagerForTree":       12,
+	"OnPodAdd":                          13,
+	"OnPodUpdate":                       14,
+	"OnPodDelete":                       15,
+	"GetQuotaName":                      16,
+	"Enabled":                           17,
+	"ElasticQuotas":                     18,
+	"Get":                               19,
+	"ByIndex":                           20,
+	"MigratePod":                        21,
+	"GetQuotaInfoByName":                22,
+	"GetPodCache":                       23,
+	"GetTreeID":                         24,
+	"ReservePod":                        25,
+	"UnreservePod":                      26,
+	"deleteQuotaToTreeMap":              27,
+	"DeleteQuota":                       28,
+	"updateQuotaToTreeMap":              29,
+	"UpdateQuota":                       30,
+	"NewGroupQuotaManager":              31,
+	"UpdateQuotaInfo":                   32,
+	"ResetQuota":                        33,
+	"addPodIfNotPresent":                34,
+	"removePodIfPresent":                35,
+}
+
+func c19CallSeq(fd *ast.FuncDecl) []int {
+	var out []int
+	ast.Inspect(fd.Body, func(n ast.Node) bool {
+		if c, ok := n.(*ast.CallExpr); ok {
+			name := ""
+			switch f := c.Fun.(type) {
+			case *ast.SelectorExpr:
+				name = f.Sel.Name
+			case *ast.Ident:
+				name = f.Name
+			}
+			if k, ok := c19Calls[name]; ok {
+				out = append(out, k)
+			}
+		}
+		return true
+	})
+	return out
+}
+
+func c19Ints(xs []int) string {
+	var p []string
+	for _, x := range xs {
+		p = append(p, fmt.Sprint(x))
+	}
+	return "[" + strings.Join(p, ", ") + "]"
+}
+
 func init() {
 	extractors["C19"] = func(e *ext) {
 		// the only numeric constant of the CPU-set codec: Parse rejects a range ending above it
 		e.constInt("pkg/util/cpuset", "maxAvailableCPUCount", "maxAvailableCPUCount")
+
+		// --- elasticquota part: call structure (in source order) of the functions Model/C19Quota.lean mirrors
+		seq := func(dir, recv, fn, lean, doc string) {
+			fd := e.funcDecl(dir, recv, fn)
+			if fd == nil || fd.Body == nil {
+				e.fail("%s.%s not found", recv, fn)
+				return
+			}
+			fmt.Fprintf(&e.out, "/-- %s -/\ndef %s : List Nat := %s\n", doc, lean, c19Ints(c19CallSeq(fd)))
+		}
+		core := "pkg/scheduler/plugins/elasticquota/core"
+		plug := "pkg/scheduler/plugins/elasticquota"
+		seq(core, "GroupQuotaManager", "MigratePod", "qMigratePod", "core MigratePod: calls in source order (table in harness/extract/facts_c19.go)")
+		seq(core, "GroupQuotaManager", "OnPodAdd", "qOnPodAdd", "core OnPodAdd incl. the fail-over branch")
+		seq(core, "GroupQuotaManager", "OnPodUpdate", "qOnPodUpdate", "core OnPodUpdate, all branches")
+		seq(core, "GroupQuotaManager", "OnPodDelete", "qOnPodDelete", "core OnPodDelete")
+		seq(core, "GroupQuotaManager", "ReservePod", "qReservePod", "core ReservePod")
+		seq(core, "GroupQuotaManager", "UnreservePod", "qUnreservePod", "core UnreservePod")
+		seq(core, "GroupQuotaManager", "updatePodCacheNoLock", "qUpdatePodCache", "core updatePodCacheNoLock")
+		seq(plug, "Plugin", "OnPodAdd", "qPlOnPodAdd", "plugin OnPodAdd")
+		seq(plug, "Plugin", "OnPodUpdate", "qPlOnPodUpdate", "plugin OnPodUpdate")
+		seq(plug, "Plugin", "handlePodDelete", "qPlHandlePodDelete", "plugin handlePodDelete")
+		seq(plug, "Plugin", "getPodAssociateQuotaNameAndTreeID", "qPlResolve", "plugin getPodAssociateQuotaNameAndTreeID")
+		seq(plug, "Plugin", "GetQuotaName", "qPlGetQuotaName", "plugin GetQuotaName")
+		seq(plug, "Plugin", "migrateDefaultQuotaGroupsPod", "qPlMigrate", "plugin migrateDefaultQuotaGroupsPod")
+		seq(plug, "Plugin", "Reserve", "qPlReserve", "plugin Reserve")
+		seq(plug, "Plugin", "Unreserve", "qPlUnreserve", "plugin Unreserve")
+		seq(plug, "Plugin", "OnQuotaAdd", "qPlOnQuotaAdd", "plugin OnQuotaAdd")
+		seq(plug, "Plugin", "OnQuotaDelete", "qPlOnQuotaDelete", "plugin OnQuotaDelete")
+		seq(plug, "Plugin", "ReplaceQuotas", "qPlReplaceQuotas", "plugin ReplaceQuotas")
+
+		// the fall-back group of getPodAssociateQuotaNameAndTreeID / GetQuotaName is extension.DefaultQuotaName
+		fallback := func(fn string) bool {
+			fd := e.funcDecl(plug, "Plugin", fn)
+			if fd == nil || fd.Body == nil {
+				e.fail("Plugin.%s not found", fn)
+				return false
+			}
+			all, n := true, 0
+			ast.Inspect(fd.Body, func(x ast.Node) bool {
+				r, ok := x.(*ast.ReturnStmt)
+				if !ok {
+					return true
+				}
+				for _, res := range r.Results {
+					if sel, ok := res.(*ast.SelectorExpr); ok {
+						if id, ok := sel.X.(*ast.Ident); ok && id.Name == "extension" {
+							n++
+							if sel.Sel.Name != "DefaultQuotaName" {
+								all = false
+							}
+						}
+					}
+				}
+				return true
+			})
+			return all && n > 0
+		}
+		fmt.Fprintf(&e.out, "/-- every `extension.X` constant returned by the two resolution functions is DefaultQuotaName -/\n")
+		fmt.Fprintf(&e.out, "def qFallbackIsDefault : Bool := %v\n", fallback("getPodAssociateQuotaNameAndTreeID") && fallback("GetQuotaName"))
+
+		// feature-gate defaults the model assumes (all off)
+		gates := []string{"MultiQuotaTree", "DisableDefaultQuota", "ElasticQuotaIgnoreTerminatingPod", "ElasticQuotaImmediateIgnoreTerminatingPod"}
+		off := map[string]bool{}
+		for _, f := range e.dir("pkg/features") {
+			ast.Inspect(f, func(x ast.Node) bool {
+				kv, ok := x.(*ast.KeyValueExpr)
+				if !ok {
+					return true
+				}
+				id, ok := kv.Key.(*ast.Ident)
+				if !ok {
+					return true
+				}
+				cl, ok := kv.Value.(*ast.CompositeLit)
+				if !ok {
+					return true
+				}
+				for _, el := range cl.Elts {
+					if kv2, ok := el.(*ast.KeyValueExpr); ok {
+						if k, ok := kv2.Key.(*ast.Ident); ok && k.Name == "Default" {
+							if v, ok := kv2.Value.(*ast.Ident); ok {
+								if v.Name == "false" {
+									if _, seen := off[id.Name]; !seen {
+										off[id.Name] = true
+									}
+								} else {
+									off[id.Name] = false
+								}
+							}
+						}
+					}
+				}
+				return true
+			})
+		}
+		allOff := true
+		for _, g := range gates {
+			if !off[g] {
+				allOff = false
+			}
+		}
+		fmt.Fprintf(&e.out, "/-- MultiQuotaTree, DisableDefaultQuota, ElasticQuota(Immediate)IgnoreTerminatingPod default to false everywhere they are declared -/\n")
+		fmt.Fprintf(&e.out, "def qGatesOff : Bool := %v\n", allOff)
 	}
 }
